@@ -238,7 +238,7 @@ func checkC12(c *hx.Ctx) {
 		ops    []*ref.Op // cycle ops in chain order (last closes the cycle)
 		k      int
 		kind   string
-		alt    *ref.Op // a legitimate competitor of the operation that closes the cycle (same revealed key, fresh successor)
+		alt    *ref.Op   // a legitimate competitor of the operation that closes the cycle (same revealed key, fresh successor)
 		opsND  []*ref.Op // recovery chains: the same cycle built from recovers that carry no delta (legal once anchored)
 	}
 	var cycles []cyc
